@@ -2,6 +2,7 @@
 package main
 
 import (
+	"encoding/json"
 	"flag"
 	"fmt"
 	"os"
@@ -13,7 +14,23 @@ import (
 func main() {
 	repo := flag.String("repo", "/repo", "repository root")
 	out := flag.String("out", "", "output directory")
+	shape := flag.String("shape", "", "write the per-file shape digests (JSON) to this path")
 	flag.Parse()
+	if *shape != "" {
+		m, err := extract.Shape(*repo)
+		if err != nil {
+			fmt.Fprintln(os.Stderr, err)
+			os.Exit(3)
+		}
+		b, _ := json.MarshalIndent(m, "", " ")
+		if err := os.WriteFile(*shape, b, 0o644); err != nil {
+			fmt.Fprintln(os.Stderr, err)
+			os.Exit(3)
+		}
+		if *out == "" {
+			return
+		}
+	}
 	if *out == "" {
 		fmt.Fprintln(os.Stderr, "-out is required")
 		os.Exit(2)
